@@ -349,12 +349,15 @@ Definition item_view (e : extitem) : extview :=
   XItem (ei_flags e) (ei_type e) (N.of_nat (length (ei_val e))) (ei_val e).
 
 (** The receive loop of [Messenger.recv_raw] over [parse_frame], for any
-    handler state [St], phase projection (the [_in_conn] flag) and handler
+    handler state [St], phase projection (the [_in_conn] flag), liveness
+    projection ([get_app_socket() is not None]: the loop stops handling
+    buffered octets once the handler has closed the connection) and handler
     ([recv_message]).  Same text as the generic [loop]/[recv] of
     Proofs/FrameProofs.v (proved equal there by conversion). *)
 Section RxLoop.
   Variable St : Type.
   Variable phase : St -> bool.
+  Variable alive : St -> bool.
   Variable handle : St -> frame -> St.
 
   Fixpoint rx_loop (fuel : nat) (s : St) (buf : bytes) : St * bytes :=
@@ -364,10 +367,12 @@ Section RxLoop.
       match buf with
       | [] => (s, buf)
       | _ :: _ =>
-        match parse_frame (phase s) buf with
-        | None => (s, buf)
-        | Some (f, r) => rx_loop fuel' (handle s f) r
-        end
+        if alive s then
+          match parse_frame (phase s) buf with
+          | None => (s, buf)
+          | Some (f, r) => rx_loop fuel' (handle s f) r
+          end
+        else (s, buf)
       end
     end.
 
@@ -375,17 +380,23 @@ Section RxLoop.
     rx_loop (S (length (snd st ++ chunk))) (fst st) (snd st ++ chunk).
 End RxLoop.
 
-(** The logging handler: state = ([_in_conn], frames acted on so far).
-    As in [Messenger.recv_message], [_in_conn] is set when a contact header
-    with the right magic and version 4 is handled (any other contact header
-    closes the connection and leaves the receiver in the contact phase). *)
+(** The logging handler: state = (([_in_conn], connection open), frames acted
+    on so far).  As in [Messenger.recv_message], a contact header with the
+    right magic and version 4 sets [_in_conn]; any other contact header closes
+    the connection (and leaves the receiver in the contact phase).  Messages
+    are only logged. *)
 Definition contact_ok (c : contact) : bool := bytes_eqb (ch_magic c) MAGIC && (ch_version c =? 4).
-Definition log_state := (bool * list frame)%type.
-Definition log_phase (s : log_state) : bool := fst s.
-Definition log_handle (s : log_state) (f : frame) : log_state :=
-  (match f with FContact c => fst s || contact_ok c | FMsg _ => fst s end, snd s ++ [f]).
-Definition rx_log_recv := rx_recv log_state log_phase log_handle.
-Definition rx_init : log_state * bytes := ((false, []), []).
+Definition log_state := ((bool * bool) * list frame)%type.
+Definition log_phase (s : log_state) : bool := fst (fst s).
+Definition log_alive (s : log_state) : bool := snd (fst s).
+Definition log_flags (fl : bool * bool) (f : frame) : bool * bool :=
+  match f with
+  | FContact c => if contact_ok c then (true, snd fl) else (fst fl, false)
+  | FMsg _ => fl
+  end.
+Definition log_handle (s : log_state) (f : frame) : log_state := (log_flags (fst s) f, snd s ++ [f]).
+Definition rx_log_recv := rx_recv log_state log_phase log_alive log_handle.
+Definition rx_init : log_state * bytes := (((false, true), []), []).
 
 (** Cut a stream into reads of the given sizes (the last read takes what is left). *)
 Fixpoint split_at (lens : list nat) (l : bytes) : list bytes :=
